@@ -40,7 +40,7 @@ ANCHORS = ['pfhedge.nn.functional:entropic_risk_measure',
 DECIDING = ["ERM.monotone", "ERM.cash", "ERM.convex", "ERM.bounds", "ERM.a_monotone", "ES.monotone", "ES.cash", "ES.convex", "ES.homogeneous",
             "ES.p_monotone", "ES.bounds", "QCVaR.monotone", "QCVaR.cash", "QCVaR.convex", "QCVaR.bounds", "EntropicLoss.monotone_convex",
             "IsoelasticLoss.monotone_convex"]
-REQUIRED_BRANCHES = ["n=1", "ties", "const", "multi_column", "EntropicLoss.large_exponent", "IsoelasticLoss.small_wealth"]
+REQUIRED_BRANCHES = ["n=1", "ties", "const", "multi_column", "EntropicLoss.large_exponent", "IsoelasticLoss.small_wealth", "columns_at_different_levels"]
 
 
 def eps(x):
@@ -93,6 +93,11 @@ def drv_axioms(ctx, k, rng):
     X, style = sample(rng, shape, dtype, scale=scale)
     Y, style2 = sample(rng, shape, dtype, scale=scale)
     D = sample(rng, shape, dtype, scale=scale, style="gauss")[0].abs()
+    if trail and rng.random() < 0.25:
+        # columns sitting at very different cash levels (the same positions booked against different fixed amounts): each column is its own sample
+        lev = t(rng.standard_normal(tuple(trail)) * float(pick(rng, [1e3, 1e5, 1e6])) * scale, dtype)
+        X, Y = X + lev, Y + lev
+        ctx.branch("columns_at_different_levels")
     c = float(rng.standard_normal() * scale)
     lmb = float(pick(rng, [0.0, 1.0, 0.5, 0.25, float(rng.random())]))
     if n == 1:
@@ -170,13 +175,14 @@ def drv_axioms(ctx, k, rng):
                   sig=("ES", "p") + base_sig, trivial=triv, X=X, p1=pl_, p2=ph, r1=r_lo, r2=r_hi)
     try:
         run("QCVaR", qc, lambda x: tol_q(x, lam), q=True, lower=1 / (4 * lam))
-    except RuntimeError as ex:
-        if "max_iter" not in str(ex):
+    except (RuntimeError, ValueError) as ex:
+        # the search fails in three ways on a column that is constant at the resolution of its dtype: iteration cap, empty bracket, log10(0)
+        if not any(m_ in str(ex) for m_ in ("max_iter", "math domain error", "lower < upper")):
             raise
-        worst = min((float((s_.amax(0) - s_.amin(0)).max()) / (mx(s_) + 1e-300)) for s_ in (X, Y, Xc, Xm, Z))
+        worst = min(float(((s_.to(F64).amax(0) - s_.to(F64).amin(0)) / (s_.to(F64).abs().amax(0) + 1e-300)).min()) for s_ in (X, Y, Xc, Xm, Z))
         ctx.seen("QCVaR.total")
         ctx.violation("QCVaR.total", "qcvar.bisect_max_iter_near_constant_sample" if worst <= 1e-5 else "qcvar.bisect_max_iter",
-                      f"quadratic CVaR raised {ex} (smallest relative column spread among the samples {worst!r}, dtype {dtype})",
+                      f"quadratic CVaR raised {type(ex).__name__}: {ex} (smallest relative column spread among the samples {worst!r}, dtype {dtype})",
                       sig=("QCVaR", "total") + base_sig, X=X.reshape(-1)[:20], lam=lam)
     # expected-utility losses: monotone decreasing and convex in the P&L
     aa = float(pick(rng, [0.5, 1.0, 2.0]))
